@@ -44,7 +44,8 @@ def trivial_getter_env(prog: Program, cls: ClassInfo, self_name: str = "self") -
     return env
 
 
-def normaliser(prog: Program, f: FuncInfo, inline_locals: bool = True, extra_env: dict[str, ast.expr] | None = None) -> Normaliser:
+def normaliser(prog: Program, f: FuncInfo, inline_locals: bool = True, extra_env: dict[str, ast.expr] | None = None,
+               inline_helpers: bool = True) -> Normaliser:
     env: dict[str, ast.expr] = {}
     if inline_locals:
         env.update(single_assignment_env(f.node))
@@ -52,7 +53,89 @@ def normaliser(prog: Program, f: FuncInfo, inline_locals: bool = True, extra_env
         env.update(trivial_getter_env(prog, f.cls, f.self_name))
     if extra_env:
         env.update(extra_env)
-    return Normaliser(lambda d: prog.qualify(f.module, d), env, f.self_name)
+    return Normaliser(lambda d: prog.qualify(f.module, d), env, f.self_name, inliner=_make_inliner(prog, f, 0) if inline_helpers else None)
+
+
+def straight_line_helper(g: FuncInfo) -> ast.expr | None:
+    """The returned expression of a helper whose body is: docstring, single assignments to fresh locals, one final `return e`."""
+    node = g.node
+    if getattr(node, "decorator_list", None) and any(src(d) not in ("staticmethod",) for d in node.decorator_list):
+        return None
+    if node.args.vararg or node.args.kwarg:
+        return None
+    body = [s for s in node.body if not (isinstance(s, ast.Expr) and isinstance(s.value, ast.Constant))]
+    if not body or not isinstance(body[-1], ast.Return) or body[-1].value is None:
+        return None
+    params = {a.arg for a in [*node.args.posonlyargs, *node.args.args, *node.args.kwonlyargs]}
+    seen: set[str] = set()
+    for s in body[:-1]:
+        if not (isinstance(s, ast.Assign) and len(s.targets) == 1 and isinstance(s.targets[0], ast.Name)):
+            return None
+        name = s.targets[0].id
+        if name in params or name in seen:
+            return None
+        seen.add(name)
+    for n in ast.walk(node):
+        if isinstance(n, (ast.Yield, ast.YieldFrom, ast.Await, ast.NamedExpr, ast.Lambda)):
+            return None
+    return body[-1].value
+
+
+def _make_inliner(prog: Program, f: FuncInfo, depth: int):
+    def inline(n: Normaliser, call: ast.Call) -> Rat | None:
+        try:
+            targets = prog.resolve_call(f, call)
+        except AnalysisError:
+            return None
+        fis = [t for t in targets if isinstance(t, FuncInfo)]
+        if not fis:
+            return None
+        names = sorted(t.qualname for t in fis)
+        if len(fis) != 1 or len(targets) != 1 or depth >= 3 or fis[0].qualname == f.qualname or fis[0].name == "__init__":
+            n.opaque.update(names)
+            return None
+        g = fis[0]
+        ret = straight_line_helper(g)
+        if ret is None or any(isinstance(a, ast.Starred) for a in call.args) or any(k.arg is None for k in call.keywords):
+            n.opaque.update(names)
+            return None
+        pos = [a.arg for a in [*g.node.args.posonlyargs, *g.node.args.args]]
+        env: dict = {}
+        is_method = g.cls is not None and g.self_name is not None and pos and pos[0] == g.self_name
+        if is_method:
+            # only `self.helper(...)` on the caller's own object keeps `self.x` atoms meaningful
+            fn = call.func
+            if not (isinstance(fn, ast.Attribute) and isinstance(fn.value, ast.Name) and fn.value.id == f.self_name and f.self_name == g.self_name):
+                n.opaque.update(names)
+                return None
+            pos = pos[1:]
+        if len(call.args) > len(pos):
+            n.opaque.update(names)
+            return None
+        for name, a in zip(pos, call.args):
+            env[name] = n.rat(a)
+        kwonly = [a.arg for a in g.node.args.kwonlyargs]
+        for k in call.keywords:
+            if k.arg not in pos and k.arg not in kwonly or k.arg in env:
+                n.opaque.update(names)
+                return None
+            env[k.arg] = n.rat(k.value)
+        defaults = dict(zip(reversed(pos), reversed(g.node.args.defaults)))
+        defaults.update({a: d for a, d in zip(kwonly, g.node.args.kw_defaults) if d is not None})
+        for name in [*pos, *kwonly]:
+            if name not in env:
+                if name not in defaults:
+                    n.opaque.update(names)
+                    return None
+                env[name] = Normaliser(lambda d: prog.qualify(g.module, d)).rat(defaults[name])
+        local = {k: v for k, v in single_assignment_env(g.node).items() if k not in env}
+        if g.cls is not None and g.self_name:
+            local.update(trivial_getter_env(prog, g.cls, g.self_name))
+        local.update(env)
+        n2 = Normaliser(lambda d: prog.qualify(g.module, d), local, g.self_name, inliner=_make_inliner(prog, g, depth + 1))
+        n2.opaque = n.opaque
+        return n2.rat(ret)
+    return inline
 
 
 def parse_expr(text: str) -> ast.expr:
@@ -423,3 +506,70 @@ def dtype_inheritance_sites(prog: Program, funcs: list[FuncInfo]) -> list[tuple[
                         continue
                     out.append((f, n, f"`{src(n)[:70]}` stores a computed value into `{base.id}`, whose dtype is inherited from `{inherited[base.id][0]}`"))
     return out
+
+
+# ---------------------------------------------------------------------------------------------------------------
+# canonical reading of loop headers: every name bound by `for <target> in <iter>` (or a comprehension generator) is
+# expressed through one induction symbol, so that `for i in range(n)`, `for i, g in enumerate(G)`,
+# `for g, c in zip(G, D.T)` ... give the same normal forms for the loop body.
+IDX = "_I_"
+
+
+def _elem(it: ast.expr):
+    """(structure, counts): the element produced at iteration `_I_` (an expression, or a tuple of structures) and the candidate trip counts."""
+    I = ast.Name(id=IDX, ctx=ast.Load())  # noqa: E741
+    if isinstance(it, ast.Call):
+        fn = dotted(it.func) or ""
+        if fn == "range" and not it.keywords and 1 <= len(it.args) <= 2:
+            if len(it.args) == 1:
+                return I, [it.args[0]]
+            lo, hi = it.args
+            return ast.BinOp(left=I, op=ast.Add(), right=lo), [ast.BinOp(left=hi, op=ast.Sub(), right=lo)]
+        if fn == "enumerate" and it.args:
+            inner, cnt = _elem(it.args[0])
+            start = it.args[1] if len(it.args) > 1 else kwarg(it, "start")
+            idx = I if start is None else ast.BinOp(left=I, op=ast.Add(), right=start)
+            return (idx, inner), cnt
+        if fn == "zip" and it.args:
+            parts, cnts = [], []
+            for a in it.args:
+                st, c = _elem(a)
+                parts.append(st)
+                cnts.extend(c)
+            return tuple(parts), cnts
+        if fn in ("list", "tuple", "iter") and len(it.args) == 1:
+            return _elem(it.args[0])
+        if isinstance(it.func, ast.Attribute) and it.func.attr in ("tolist",) and not it.args:
+            return _elem(it.func.value)
+        if fn in ("reversed", "sorted", "set", "map", "filter"):
+            raise AnalysisError(f"loop over `{src(it)}` has no canonical index reading")
+    if isinstance(it, ast.Attribute) and it.attr == "T":
+        base = it.value
+        col = ast.Subscript(value=base, slice=ast.Tuple(elts=[ast.Slice(lower=None, upper=None, step=None), I], ctx=ast.Load()), ctx=ast.Load())
+        shp = ast.Subscript(value=ast.Attribute(value=base, attr="shape", ctx=ast.Load()), slice=ast.Constant(value=1), ctx=ast.Load())
+        return col, [shp]
+    return ast.Subscript(value=it, slice=I, ctx=ast.Load()), [ast.Call(func=ast.Name(id="len", ctx=ast.Load()), args=[it], keywords=[])]
+
+
+def _destructure(target: ast.expr, st, out: dict[str, ast.expr]) -> bool:
+    if isinstance(target, ast.Name):
+        if isinstance(st, tuple):
+            return False
+        out[target.id] = st
+        return True
+    if isinstance(target, (ast.Tuple, ast.List)):
+        if not isinstance(st, tuple) or len(st) != len(target.elts):
+            return False
+        return all(_destructure(t, s, out) for t, s in zip(target.elts, st))
+    return False
+
+
+def loop_binding(target: ast.expr, it: ast.expr) -> tuple[dict[str, ast.expr], list[ast.expr]]:
+    """Names bound by a loop header in terms of the induction symbol `_I_` (0-based), and the candidate trip counts."""
+    st, counts = _elem(it)
+    env: dict[str, ast.expr] = {}
+    if not _destructure(target, st, env):
+        raise AnalysisError(f"cannot read loop header `for {src(target)} in {src(it)}`")
+    for e in list(env.values()) + counts:
+        ast.fix_missing_locations(e)
+    return env, counts
